@@ -15,7 +15,7 @@ SCOPES = {
     "C09": [("ind:ALL", 400, 50), ("manager.fill", 60, 50), ("arith", 40, 60)],
     "C10": [("ind:ALL", 300, 50), ("arith", 40, 60)],
     "C13": [("hexital", 300, 40)],
-    "C14": [("ind:ALL", 300, 40), ("amorph:ALL", 60, 30), ("hexital", 150, 40)],
+    "C14": [("ind:ALL", 300, 40), ("amorph:ALL", 60, 30), ("hexital", 150, 40), ("hexital.ha", 100, 40), ("hexital.life", 60, 40)],
     "C16": [("analysis:ALL", 200, 24), ("amorph:ALL", 200, 40)],
     "C17": [("analysis:ALL", 300, 24)],
     "C19": [("access", 150, 30), ("hexital.access", 150, 30), ("hexital", 100, 40), ("manager.malformed", 60, 30)],
